@@ -73,6 +73,9 @@ SM2(n) == MulBits(C2, G2, Bits(n))
 
 RowOK(r) ==
   CASE r.op = "pair" -> r.r = Pairing(SM2(r.b), SM1(r.a))
+    \* the value BEFORE the final exponentiation (optimized module, final_exponentiate = False): the
+    \* numerator / denominator accumulation must give exactly the Miller function value
+    [] r.op = "miller" -> r.r = Miller(Tw(SM2(r.b)), Cast(SM1(r.a)))
     [] r.op = "fe"   -> r.r = FinalExp(r.x)                 \* final_exponentiate(x) for an arbitrary element
     [] r.op = "frob" -> r.r = Frob(r.x)
     [] OTHER -> FALSE
